@@ -66,6 +66,20 @@ def make_pool(rng):
         cut = sb[: rng.randrange(3, len(sb))]
         pool.append((f"S{tn}cut", tn, cut, None, None, True))
         pool.append((f"S{tn}cutw", tn, cut, None, None, False))
+    # value-faulted variants of a pool message (boundary values just outside a field's set are often members of a
+    # sibling interface type), strict and warn: verdicts must not depend on what was validated before
+    from .. import cases as _cases
+
+    msgs = [it for it in pool if it[1] in ("Command", "Response") and it[5]]
+    if msgs:
+        lab, t, b, cc, enc, _s = rng.choice(msgs)
+        base = _cases.Case(t, b, cc, enc)
+        bref = base.ref()
+        if bref.outcome.kind == "ok":
+            vf = list(_cases.value_faults(base, bref, rng, limit=2))
+            for fc in rng.sample(vf, min(3, len(vf))):
+                pool.append((f"{lab}~{fc.fault['field']}={fc.fault['new']}", t, fc.d, cc, enc, True))
+                pool.append((f"{lab}~{fc.fault['field']}={fc.fault['new']}w", t, fc.d, cc, enc, False))
     rng.shuffle(pool)
     return pool
 
@@ -137,6 +151,10 @@ def differs(a, b):
     return None
 
 
+LAST = {}
+ITEMS = {}
+
+
 def run_history(pool, ops, rec, first, sched_sig, classes):
     """ops: list of ('start', slot, item index) / ('step', slot, k) / ('finish', slot) / ('abandon', slot)"""
     live = {}
@@ -159,6 +177,8 @@ def run_history(pool, ops, rec, first, sched_sig, classes):
             del live[op[1]]
             label = l.item[0]
             summ = summarize(l)
+            LAST[label] = summ
+            ITEMS[label] = l.item
             rec.count("decodes_completed")
             for e in summ[0]:
                 if not isinstance(e, tuple) and e.path and len(e.path) == 2 and e.path[-1].name == "parameters" and getattr(e.type, "_encrypted", False):
@@ -206,6 +226,53 @@ def interleaved_ops(rng, n_items):
     # and once more, sequentially
     ops += [("start", 0, items[0]), ("finish", 0)]
     return ops
+
+
+def norm_summary(summ):
+    evs, result = summ
+    out = []
+    for e in evs:
+        if isinstance(e, tuple):
+            out.append(list(e))
+        else:
+            out.append(["M", str(e.path), TR.layout.tname(e.type), None if e.value is ... else int(e.value), None if e.value is ... else type(e.value).__name__])
+    res = [result[0]] + ([] if result[0] == "ok" else [str(x) for x in result[1:]])
+    return [out, res]
+
+
+def fresh_decode(item):
+    """Decode one item in this (fresh) process and return its normalised summary."""
+    l = Live(tuple(item))
+    l.finish()
+    return norm_summary(summarize(l))
+
+
+def fresh_process_reference(items, rec, last):
+    """Purity relative to a clean slate: the last in-process decode of an item (after all the history of this shard)
+    must equal the decode of the same arguments in a brand-new interpreter."""
+    import json
+    import subprocess
+
+    from .. import env
+
+    for item in items:
+        label = item[0]
+        arg = json.dumps([item[0], item[1], item[2].hex(), item[3], item[4], item[5]])
+        code = ("import sys, json; from vt.monitors import c12; it = json.loads(sys.argv[1]); it[2] = bytes.fromhex(it[2]); "
+                "print(json.dumps(c12.fresh_decode(it)))")
+        r = subprocess.run([env.PYTHON, "-c", code, arg], capture_output=True, text=True, cwd=env.VERIF_ROOT, env=env.child_env(), timeout=120)
+        if r.returncode != 0:
+            rec.count("fresh_process_failed")
+            continue
+        ref = json.loads(r.stdout.strip().splitlines()[-1])
+        mine = json.loads(json.dumps(norm_summary(last[label])))
+        rec.case(("fresh", label), nontrivial=True)
+        rec.count("fresh_process_comparisons")
+        if ref != mine:
+            i = next((i for i, (a, b) in enumerate(zip(ref[0], mine[0])) if a != b), None)
+            what = f"event #{i}: fresh {ref[0][i]} vs here {mine[0][i]}" if i is not None else f"fresh: {len(ref[0])} events, {ref[1]}; here: {len(mine[0])} events, {mine[1]}"
+            rec.violation("history-vs-fresh-process", "result-depends-on-history", f"decode of {label} ({item[1]} {item[2].hex()[:80]} cc={item[3]} enc={item[4]} strict={item[5]}) after this shard's history differs from the same decode in a fresh interpreter: {what}",
+                          dict(pool=[(item[0], item[1], item[2].hex(), item[3], item[4], item[5])], ops=[("fresh",)]))
 
 
 def first_use_race(rng, rec, classes, n=8):
@@ -300,6 +367,11 @@ def run_shard(shard, rec):
                     else:
                         first[label] = summ
     first_use_race(rng, rec, classes)
+    labels = sorted(LAST)
+    picks = rng.sample(labels, min(8 if shard.get("tier") != "thorough" else 40, len(labels)))
+    # prefer the value-faulted and stand-alone items: they are the ones whose verdicts could have been remembered
+    picks = sorted(picks, key=lambda l: ("~" not in l and ":S" not in l))
+    fresh_process_reference([ITEMS[l] for l in picks], rec, LAST)
     for name, ids in classes.items():
         rec.count("encrypted_layouts_seen")
         if len(ids) > 1:
@@ -310,7 +382,7 @@ def run_shard(shard, rec):
 
 def finish(m, tier):
     inc = []
-    for k in ("comparisons", "encrypted_area_events", "schedules_interleaved_ops", "schedules_seq_ops", "thread_runs", "first_use_races"):
+    for k in ("comparisons", "encrypted_area_events", "schedules_interleaved_ops", "schedules_seq_ops", "thread_runs", "first_use_races", "fresh_process_comparisons"):
         if not m["counters"].get(k):
             inc.append(f"no {k}")
     return dict(inconclusive=inc)
